@@ -111,7 +111,7 @@ def selection_rule(S, i):
 
 class BestEval(Unit):
     name = "besteval.best_eval"
-    props = ("C03", "C02", "C06", "C20", "C09")
+    props = ("C03", "C02", "C06", "C20", "C09", "C08")
     fmodel = "ORDER"
     functions = [("cobyqa.problem", "Problem.best_eval")]
     replay = ("contracts.replays", "best_eval")
@@ -144,6 +144,10 @@ class BestEval(Unit):
             c.assume(z3.And(F2.len >= 1, M2.len == F2.len, X2.len == F2.len))
             c.assume(z3.ForAll([j], z3.Implies(z3.And(0 <= j, j < M2.len), z3.Or(M2.nan[j], M2.r[j] >= 0)), patterns=[M2.r[j]]))
             self._fun_filter, self._maxcv_filter, self._x_filter = F2, M2, X2
+            # ... and it raises CallbackSuccess (after the filter update) iff the user's callback asked to stop
+            if c.choose("callback_stops", 2, ["no", "yes"]):
+                from cobyqa.utils import CallbackSuccess
+                raise CallbackSuccess
         saved = P.__call__
         P.__call__ = stub_call
         try:
